@@ -553,7 +553,10 @@ class Exec:
             self.steps += 1
             if self.steps > self.step_budget: raise Unknown('step budget exceeded in ' + f.name)
             blk = f.blocks[bb]
-            for st in blk[:-1]: self.stmt(fr, st)
+            for st in blk[:-1]:
+                try: self.stmt(fr, st)
+                except (z3.Z3Exception, TypeError, AttributeError, ValueError, KeyError, IndexError) as e:
+                    raise Unknown('cannot execute `%s` in %s bb%d: %r' % (st, f.name, bb, e))
             t = blk[-1]
             pt = _TERM.get(t)
             if pt is None: pt = _TERM[t] = parse_term(t)
